@@ -172,12 +172,22 @@ pub fn big(kind: &str, n: usize) {
         "dupnamed" => (0..n).map(|_| "(?<n>a)".to_string()).collect::<Vec<_>>().join("|"),
         "catnest" => format!("{}{}", "(?:a".repeat(n), ")".repeat(n)),
         // counted loops nested n deep around a literal: the optimizer may unroll each level once, not re-unroll what it merged
+        // many SIBLINGS of every nesting construct: depth counters must come back down
+        "sibgroups" => "(a)".repeat(n),
+        "sibnc" => "(?:a)".repeat(n),
+        "siblook" => "(?=a)(?<!b)".repeat(n),
+        "sibclass" => "[a]".repeat(n),
+        "sibvclass" => format!("[{}]", "[a]".repeat(n)),
+        "sibvnclass" => format!("[{}]", "[^b]".repeat(n)),
+        "sibvclasstop" => "[[a]][^[^b]]".repeat(n),
+        "sibquant" => "(?:a)*".repeat(n),
+        "sibmod" => "(?i:a)".repeat(n),
         "countnest" => format!("{}a{{5}}{}", "(?:".repeat(n), "){5}".repeat(n)),
         "countnest2" => format!("{}ab{{2,3}}{}", "(?:".repeat(n), "){2}".repeat(n)),
         "altnest" => format!("{}a{}", "(?:b|".repeat(n), ")".repeat(n)),
         _ => panic!("unknown kind"),
     };
-    let flags = if kind == "classnest" || kind == "qstrings" { "v" } else { "" };
+    let flags = if kind == "classnest" || kind == "qstrings" || kind.starts_with("sibv") { "v" } else { "" };
     let r = regress::Regex::with_flags(&pat, flags);
     match r {
         Ok(re) => {
